@@ -98,7 +98,11 @@ func (w *World) takeFromQueue(ps []string, ctx string) {
 
 func NewWorld(prop string, max, min int, st *vlib.Stats) *World {
 	w := &World{Prop: prop, Max: max, Min: min, Reg: map[string]bool{}, Elim: map[string]bool{}, Queue: map[string]bool{}, Tables: map[string][]string{}, Dead: map[string]bool{}, Facts: map[string]bool{}, St: st}
-	w.R = regulator.NewRegulator(regulator.MaxPlayersPerTable(max), regulator.MinInitialPlayers(min),
+	optA, optB := regulator.MaxPlayersPerTable(max), regulator.MinInitialPlayers(min)
+	if (max+min)%2 == 1 {
+		optA, optB = optB, optA // the order in which options are given must not matter
+	}
+	w.R = regulator.NewRegulator(optA, optB,
 		regulator.WithRequestTableFn(func(players []string) (string, error) {
 			w.nextT++
 			id := fmt.Sprintf("%st%d", w.namePrefix, w.nextT)
@@ -323,6 +327,19 @@ func (w *World) ReEnter(n int) {
 		w.fail("C09", "registration-refused", "AddPlayers(re-entry of %d) in status %d failed: %v", len(ps), w.Status, err)
 	}
 	w.Check("re-enter")
+}
+
+// ReleaseNothing: a table reports that it releases nobody (an empty list). It is
+// legal at any time and may at most make the regulator seat players who wait.
+func (w *World) ReleaseNothing(id string) {
+	w.Log = append(w.Log, fmt.Sprintf("release(%s,0)", id))
+	w.initialAlloc = len(w.Tables) == 0 && len(w.Dead) == 0
+	var err error
+	w.guard("ReleasePlayers", func() { err = w.R.ReleasePlayers(id, []string{}) })
+	w.initialAlloc = false
+	_ = err
+	w.Facts["empty-release"] = true
+	w.Check("release-nothing")
 }
 
 func (w *World) SetStatus(s int) {
